@@ -343,7 +343,72 @@ fn build(tier: Tier) -> Vec<Scenario> {
             (cases, cases - 1, fail)
         }),
     ));
+    // channel source fed by a concurrent task: every item once, in order, on a single replica
+    for n in [0usize, 1, 4] {
+        for p in [1u64, 2] {
+            out.push(channel_source_scenario(n, p, if tier == Tier::Quick { 1 } else { 2 }));
+        }
+    }
     out
+}
+
+fn channel_source_scenario(n: usize, p: u64, bound: usize) -> Scenario {
+    use crate::rt::{log, Ev, Status};
+    use renoir::operator::source::ChannelSource;
+    let body: crate::rt::Body = Arc::new(move || {
+        let env = crate::kit::Layout::Local(p).env(0);
+        let (tx, source) = ChannelSource::<i64>::new(2);
+        let out = crate::kit::probe(env.stream(source).batch_mode(BatchMode::fixed(2)), 3).collect_vec();
+        let feeder = renoir::verif::thread::spawn(move || {
+            for i in 0..n as i64 {
+                tx.send(i * 7 % 5).unwrap();
+            }
+        });
+        env.execute_blocking();
+        let _ = feeder.join();
+        match out.get() {
+            Some(v) => log(Ev::Note("seq", v)),
+            None => log(Ev::Note("no-result", vec![])),
+        }
+    });
+    let exp: Vec<i64> = (0..n as i64).map(|i| i * 7 % 5).collect();
+    let check: crate::explore::Check = Arc::new(move |r| {
+        if r.status != Status::Done {
+            return Err(Fail::new("c15-channel-source-abnormal", format!("{:?}", r.status)));
+        }
+        let mut replicas = std::collections::BTreeSet::new();
+        for e in &r.log {
+            if let Ev::Probe(3, c, k, _, _) = e {
+                if *k <= 1 {
+                    replicas.insert(*c);
+                }
+            }
+        }
+        if replicas.len() > 1 {
+            return Err(Fail::new("c15-channel-source-replicated", format!("items were emitted on replicas {:?}", replicas)));
+        }
+        for e in &r.log {
+            if let Ev::Note("seq", v) = e {
+                if *v != exp {
+                    return Err(Fail::new("c15-channel-source-order", format!("channel source delivered {:?}, the feeder sent {:?}", v, exp)));
+                }
+                return Ok(crate::explore::hash_of(&r.trace.len()));
+            }
+        }
+        Err(Fail::new("c15-channel-source-no-result", "no result".to_string()))
+    });
+    Scenario {
+        name: format!("C15/channel-source/n{n}/p{p}"),
+        descr: format!("ChannelSource(capacity 2) fed with {n} items by a concurrent task, {p} cores, every schedule within the bound"),
+        params: crate::rt::EnvParams::default(),
+        body,
+        check,
+        bound,
+        orders: crate::props::common::ORDERS3.to_vec(),
+        max_execs: 0,
+        shards: 1,
+        nontrivial: n > 1,
+    }
 }
 
 pub fn spec() -> PropSpec {
